@@ -73,7 +73,7 @@ static void check_eigen(const Rows& a, const std::string& fam)
 	for(ld v : refev) mags.push_back(fabsl(v));
 	std::sort(mags.begin(), mags.end());
 	ld worst = 0;
-	for(int i = 0; i + 1 < n; i++) worst = std::max(worst, mags[i] / mags[i + 1]);
+	for(int i = 0; i + 1 < n; i++) worst = mags[i + 1] > 0 ? std::max(worst, mags[i] / mags[i + 1]) : 1.0L;	// two vanishing eigenvalues are not separated
 	if(n > 1 && !(worst <= 0.8001L)) { mc::count("eigen_skipped_magnitudes_not_separated", 1); return; }
 	mc::count("distinct_nontrivial", 1);
 	std::vector<double> ev;
@@ -87,7 +87,15 @@ static void check_eigen(const Rows& a, const std::string& fam)
 	if(!(std::fabs(sum - tr) <= tol * n)) fail("eigenvalues", fam, a, "sum_not_trace", "sum " + mc::dec(sum) + " trace " + mc::dec(tr));
 	ld prod = 1, dref = 1;
 	for(int i = 0; i < n; i++) { prod *= ev[i]; dref *= refev[i]; }
-	if(!(fabsl(prod - dref) <= 1e-8L * n * fabsl(dref))) fail("eigenvalues", fam, a, "product_not_determinant", "product " + mc::dec((double)prod) + " determinant " + mc::dec((double)dref));
+	// (a spectrum with a vanishing member - a singular matrix - has determinant zero to rounding: the bound is then the accepted eigenvalue error
+	// times the product of the other magnitudes)
+	ld ptol = 1e-8L * n * fabsl(dref);
+	if(n > 1 && mags[0] < 1e-7L * scale)
+	{
+		ptol = 0;
+		for(int i = 0; i < n; i++) { ld o = 1; for(int j = 0; j < n; j++) if(j != i) o *= fabsl(refev[j]) + tol; ptol += tol * o; }
+	}
+	if(!(fabsl(prod - dref) <= ptol)) fail("eigenvalues", fam, a, "product_not_determinant", "product " + mc::dec((double)prod) + " determinant " + mc::dec((double)dref));
 	mc::maxi("eigenvalue_err_over_tol", e / tol);
 	// Eigensystem / Eigenvectors: one child each, 2 s limit
 	std::string payload_es;
@@ -459,6 +467,77 @@ int main(int argc, char** argv)
 							}
 					}
 	}
+	// hollow symmetric matrices (every diagonal entry exactly zero: adjacency, distance and pure coupling matrices): all of size 3 over
+	// six off-diagonal letters, all of size 4 over three (thorough: five) letters, band and complete patterns up to nmax
+	{
+		const double L6[] = {0, 1, 2, 3, -1, -2};
+		unsigned long long idx = 0;
+		for(int n = 3; n <= 4; n++)
+		{
+			int m = n * (n - 1) / 2, nl = n == 3 ? 6 : (mc::thorough() ? 5 : 3);
+			mc::Product p(std::vector<int>(m, nl));
+			do
+			{
+				if(!mc::mine(unit + (idx++ >> 3))) continue;
+				Rows a(n, std::vector<double>(n, 0.0));
+				int t = 0;
+				for(int i = 0; i < n; i++)
+					for(int j = i + 1; j < n; j++) { a[i][j] = a[j][i] = L6[p.idx[t++]]; }
+				check_eigen(a, "hollow");
+			} while(p.next());
+		}
+		unit += (idx >> 3) + 1;
+		for(int n = 5; n <= nmax; n++)
+			for(int pat = 0; pat < 4; pat++)
+			{
+				if(!mc::mine(unit++)) continue;
+				Rows a(n, std::vector<double>(n, 0.0));
+				for(int i = 0; i < n; i++)
+					for(int j = i + 1; j < n; j++) a[i][j] = a[j][i] = pat == 0 ? 1.0 : pat == 1 ? (j == i + 1 ? 1.0 + i : 0.0) : pat == 2 ? (double)((i * 3 + j * 5) % 7 - 2) : 1.0 / (1 + j - i);
+				check_eigen(a, "hollow");
+			}
+	}
+	// eigenvectors orthogonal (to rounding) to the vector the pinned inverse iteration starts from, (1, e^-1/3, e^-2/3, ...), and to the
+	// all-ones and alternating vectors: the start then holds nothing of the wanted direction but rounding noise
+	for(int n = 2; n <= nmax; n++)
+		for(int which = 0; which < 3; which++)
+			for(int pos = 0; pos < 3; pos++)
+				for(size_t ri = 0; ri < 2; ri++)
+				{
+					if(!mc::mine(unit++)) continue;
+					std::vector<ld> d(n);
+					for(int i = 0; i < n; i++) d[i] = which == 0 ? expl(-(ld)i / 3) : which == 1 ? 1.0L : (i % 2 ? -1.0L : 1.0L);
+					// orthonormal basis whose first vector is orthogonal to d: Gram-Schmidt (twice) on w, d, e_2, e_3, ...
+					std::vector<std::vector<ld>> B;
+					auto push = [&](std::vector<ld> v, bool against_d) {
+						for(int pass = 0; pass < 2; pass++)
+						{
+							if(against_d) { ld dd = 0, vd = 0; for(int i = 0; i < n; i++) { dd += d[i] * d[i]; vd += v[i] * d[i]; } for(int i = 0; i < n; i++) v[i] -= vd / dd * d[i]; }
+							for(auto& b : B) { ld s = 0; for(int i = 0; i < n; i++) s += v[i] * b[i]; for(int i = 0; i < n; i++) v[i] -= s * b[i]; }
+						}
+						ld nn = 0;
+						for(int i = 0; i < n; i++) nn += v[i] * v[i];
+						if(nn < 1e-20L) return;
+						for(int i = 0; i < n; i++) v[i] /= sqrtl(nn);
+						B.push_back(v);
+					};
+					std::vector<ld> w(n);
+					for(int i = 0; i < n; i++) w[i] = 1.0L + 0.37L * i * (i % 2 ? -1 : 1);
+					push(w, true);
+					for(int k = 0; k < n && (int)B.size() < n; k++) { std::vector<ld> e(n, 0.0L); e[k] = 1; e[(k + 1) % n] += 0.5L; push(e, false); }
+					if((int)B.size() != n) continue;
+					int p = pos == 0 ? n - 1 : pos == 1 ? 0 : n / 2;	// position of that eigenvector in the order of decreasing magnitude
+					Rows Q(n, std::vector<double>(n));
+					for(int k = 0; k < n; k++)
+					{
+						int src = k == p ? 0 : (k < p ? k + 1 : k);
+						for(int i = 0; i < n; i++) Q[i][k] = (double)B[src][i];
+					}
+					std::vector<double> lam(n);
+					double cur = 1.0;
+					for(int i = 0; i < n; i++) { lam[i] = cur * ((i % 2) ? -1 : 1); cur *= ratios[ri][i % ratios[ri].size()]; }
+					check_eigen(symmetric_from(Q, lam), "eigenvector_orthogonal_to_start_" + std::to_string(which) + "_pos" + std::to_string(pos));
+				}
 done:
 	mc::count("evaluations", mc::ctx().counters["qr_cases"] + mc::ctx().counters["eigen_cases"]);
 	mc::count("distinct_nontrivial", mc::ctx().counters["qr_cases"]);
